@@ -49,6 +49,7 @@ pub fn large_vol(geom_idx: usize, l: LargeCfg) -> VolCfg {
         short_io: 0,
         populate: None,
         stale_free: None,
+        measure: false,
     }
 }
 
@@ -89,7 +90,7 @@ pub fn prop() -> HistProp {
     HistProp {
         id: "C20",
         level: "exploration",
-        rule: "sparse simulated FAT32 volumes built by imggen and by the library's formatter: 2^32-1 sectors of 512 bytes (2 TiB - 512 B) with 32 KiB and 64 KiB clusters, 1 TiB, 4 GiB+, 4096-byte sectors with 0x0FFFFFF4 clusters and with 2^32-1 sectors (16 TiB); FS-info next-free hint at the last cluster, last-1, last+1 (invalid), last-40 or unknown; trailing table windows pre-filled so that the scan must wrap, with free clusters left at the very end; a 4 GiB volume of 64 KiB clusters whose table is completely taken except one or two clusters placed just below, at, far below or behind the hint; every newly allocated cluster must be the first free one a search from the modelled next-free hint (wrapping from the last cluster to cluster 2) reaches; scripted and random short histories (create, multi-cluster write, read back, seek, extents, truncate, remove, mkdir, remount) under the byte-array model, refdec fsck through a sparse FAT view, the region/ownership check of every device write against independent 64-bit geometry, and the device's high-water marks (nothing read or written past the declared end); non-trivial = a data cluster at a byte offset >= 2^32 or an allocation that wrapped around; distinct by hash(config, ops)",
+        rule: "sparse simulated FAT32 volumes built by imggen and by the library's formatter: 2^32-1 sectors of 512 bytes (2 TiB - 512 B) with 32 KiB and 64 KiB clusters, 1 TiB, 4 GiB+, 4096-byte sectors with 0x0FFFFFF4 clusters and with 2^32-1 sectors (16 TiB); FS-info next-free hint at the last cluster, last-1, last+1 (invalid), last-40 or unknown; trailing table windows pre-filled so that the scan must wrap, with free clusters left at the very end; a 4 GiB volume of 64 KiB clusters whose table is completely taken except one or two clusters placed just below, at, far below or behind the hint; every newly allocated cluster must be the first free one a search from the modelled next-free hint (wrapping from the last cluster to cluster 2) reaches; the largest volume also formatted without a sector count (the formatter measures a storage of exactly 2^32-1 sectors); scripted and random short histories (create, multi-cluster write, read back, seek, extents, truncate, remove, mkdir, remount) under the byte-array model, refdec fsck through a sparse FAT view, the region/ownership check of every device write against independent 64-bit geometry, and the device's high-water marks (nothing read or written past the declared end); non-trivial = a data cluster at a byte offset >= 2^32 or an allocation that wrapped around; distinct by hash(config, ops)",
         run_cfg: rc,
         gen_cfg: gc,
         nontrivial,
@@ -174,10 +175,19 @@ pub fn run(tier: Tier, seed: u64) -> i32 {
             }
         }
     }
+    // the library-formatted 2^32-1-sector volume once more, this time with the formatter measuring the storage itself
+    // (geometry index + 100 = same geometry, no sector count given, no canary sectors behind the volume)
+    for li in [0usize, 1] {
+        work.push((106, li));
+    }
     let hp_ref = &hp;
     let b = run::run_indexed("scripted_histories_all_hint_and_window_configs", work.len() as u64, |i, blk| {
         let (g, li) = work[i as usize];
-        let vol = large_vol(g, lcs[li].clone());
+        let mut vol = large_vol(g % 100, lcs[li].clone());
+        if g >= 100 {
+            vol.measure = true;
+            vol.pad_sectors = 0;
+        }
         let case = Case { vol: vol.clone(), ops: scripted_ops(vol.cluster_size()) };
         let out = hist::eval_case(hp_ref, &case);
         blk.record(&out, || serde_json::json!({"vol": vol, "ops": "scripted (47 ops)"}));
